@@ -213,6 +213,16 @@ def run(ctx):
                   'shorter suffix resolves to the entry' % (var, idx, u(sl)), ms.loc(a), instance='slice-start')
   if n_inst == 0:
     ctx.hold('C08.minimal', smc + '.minimal_selector', 'no slice bound is computed as the negation of a zero-based index', ms.loc(), sites=len(slices))
+  # competitors are counted on the suffix tree itself: the matching API answers `[name]` for a name that is stored as it is
+  # (exact match first, C08.exact-first), which hides every longer stored name that ends in it
+  via_api = [c for c in walk_local(ms.node) if isinstance(c, ast.Call) and prog.resolve_call(ms, c) in
+             (sm.qual + '.matching_selectors', sm.qual + '.get_match', sm.qual + '.get_all_matches')]
+  reads_tree = any(isinstance(n, ast.Attribute) and n.attr == '_selector_tree' for n in walk_local(ms.node))
+  ctx.check(not via_api and reads_tree, 'C08.minimal', smc + '.minimal_selector',
+            'the shortest unambiguous suffix is computed on the suffix tree (all stored names that end in a component are seen)',
+            'minimal_selector counts its competitors through `%s`: that API gives an exactly stored name precedence, so for a stored one-component '
+            'name `load` every longer name ending in it (`data.load`) is reported as `load`, which resolves to a different entry'
+            % (u(via_api[0].func) if via_api else 'something other than the tree'), ms.loc(via_api[0]) if via_api else ms.loc(), instance='tree-walk')
   # the selector must be stored (else KeyError) and a name that is a suffix of another is returned whole
   ok = any(isinstance(n, ast.If) and isinstance(n.body[-1], ast.Raise) and 'not in self._selector_map' in u(n.test) for n in walk_local(ms.node))
   ctx.check(ok, 'C08.minimal', smc + '.minimal_selector', 'an unknown complete name raises KeyError', 'minimal_selector no longer rejects unknown names', ms.loc(), instance='unknown')
